@@ -68,6 +68,9 @@ func c13Cases(tier string) []c13Case {
 		for _, gz := range []bool{false, true} {
 			cs = append(cs, c13Case{Kind: "transfer-begins-inflight-fail", Mode: m, Gzip: gz}, c13Case{Kind: "transfer-begins-inflight-ok", Mode: m, Gzip: gz})
 		}
+		// a reload LOWERS the job's scrape_timeout (nothing else changes); a target that then answers after 3 s has
+		// exceeded the timeout now in force
+		cs = append(cs, c13Case{Kind: "slow-after-timeout-lowered", Mode: m}, c13Case{Kind: "slow-after-timeout-lowered", Mode: m, Gzip: true})
 		// the stop reason changes while the real request is in flight (target gated by the harness)
 		for _, gz := range []bool{false, true} {
 			cs = append(cs, c13Case{Kind: "stop-cleared-inflight", Mode: m, Gzip: gz}, c13Case{Kind: "stop-set-inflight", Mode: m, Gzip: gz})
@@ -339,6 +342,13 @@ func runC13Case(w *core.WorkerCtx, idx int, ld *c13Load) *core.CaseResult {
 			return res
 		}
 		rg.hookClients()
+	case "slow-after-timeout-lowered":
+		if err := rg.in.PushConfig(fmt.Sprintf(rigConfigTmpl, "1s", "")); err != nil {
+			res.Inconcl = "reload with a lower scrape_timeout: " + err.Error()
+			return res
+		}
+		rg.hookClients()
+		rg.mt.set(host, &bodyScript{Body: body, Gzip: c.Gzip, DelayMs: 3000})
 	case "transfer-begins-inflight-fail":
 		transferMid = true
 		gate, entered = make(chan struct{}), make(chan struct{})
@@ -537,6 +547,9 @@ func runC13Case(w *core.WorkerCtx, idx int, ld *c13Load) *core.CaseResult {
 		}
 	}
 
+	if c.Kind == "slow-after-timeout-lowered" {
+		_ = rg.in.PushConfig(fmt.Sprintf(rigConfigTmpl, rigLongTimeout, ""))
+	}
 	// 3. recovery: a healthy scrape again
 	if strings.HasPrefix(c.Kind, "stop") {
 		_, _, _ = rg.in.Call("POST", "/api/v1/status/extra_config/", &prom.ExtraConfig{StopScrapeReason: ""}, nil)
